@@ -330,8 +330,25 @@ def run_long(rec, tier, seed):
                 rec.violation("tomtom:result_depends_on_co_query_storage_type", dict(case, query_position=pos),
                               expected=alone_m[i][0][:4], observed=got[0, pos][:4])
                 break
+    # more than 1024 queries in one call: row i is still the result of query i alone
+    Qbig = [pat(1 + (k * 7) % 6, k) for k in range(1100)]
+    Tsm = Ts[:12]
+    for rc in (True, False):
+        st, res = call(TT.tomtom, Qbig, Tsm, n_jobs=4, reverse_complement=rc)
+        rec.case(1, 1)
+        rec.count("traces_validated_against_impl")
+        case = dict(fn="tomtom", n_queries=len(Qbig), n_targets=len(Tsm), n_jobs=4, reverse_complement=rc, generator="pat(L,k)")
+        if st != "ok":
+            rec.violation("tomtom:raises", case, observed=res)
+            continue
+        got = torch.stack(list(res)).numpy()
+        for i in (0, 1, 255, 256, 257, 1023, 1024, 1025, 1099):
+            one = torch.stack(list(TT.tomtom([Qbig[i]], Tsm, n_jobs=1, reverse_complement=rc))).numpy()[:, 0]
+            if not same(got[:, i], one):
+                rec.violation("tomtom:row_of_large_call_differs_from_single_query_call", dict(case, query_index=i), expected=one[0][:4], observed=got[:, i][0][:4])
+                break
     numba.set_num_threads(16)
-    rec.sample(dict(kind="long", query_lengths=qlens, n_jobs=[1, 2, 5, 16], nondefault=["n_median_bins 50/7/300", "n_score_bins 50/200", "no hashing"],
+    rec.sample(dict(kind="long", query_lengths=qlens, n_jobs=[1, 2, 5, 16], many_queries=1100, nondefault=["n_median_bins 50/7/300", "n_score_bins 50/200", "no hashing"],
                     mixed_storage=names))
 
 
